@@ -396,6 +396,11 @@ func (e *Explorer) done(r *pathResult) {
 	if len(r.witnesses) > 0 && e.stopOnViol {
 		e.stop = true
 	}
+	if len(e.witnesses) >= 40 {
+		// enough counterexamples: exploring (and replaying) thousands more adds nothing
+		e.stop = true
+		e.hitLimit = "stopped after 40 counterexamples"
+	}
 	if r.model != nil && len(e.samples) < 8 {
 		s := map[string]any{"outcome": outcomeNames[r.kind], "decisions": r.decisions}
 		keys := make([]string, 0, len(r.model))
